@@ -556,6 +556,14 @@ def coefficient_ops(T):
                            qutip.coefficient(d["samples"], tlist=d["tlist"])(0.3), qutip.QobjEvo([qutip.qeye(2), d["c"]])(0.3)))
 
 
+def _tolerate(fn, errors):
+    """the value of fn(), or the name of the tolerated error it raises (a missing optional dependency)"""
+    try:
+        return _quiet(fn)
+    except errors as e:
+        return type(e).__name__
+
+
 def _quiet(fn):
     import warnings as _w
     with _w.catch_warnings():
@@ -603,6 +611,10 @@ def solver_ops(T, tier, fmts):
                 lambda d: _quiet(lambda: qutip.mesolve(d["H"], d["rho"], d["tlist"], d["c_ops"], options=d["options"], progress_bar=False).states), targets=(), detail={"fmt": fmt})
         T.check(f"smesolve-deprecated-keyword:{fmt}", {"H": H0, "rho": qutip.ket2dm(psi), "tlist": np.linspace(0, 0.3, 4), "sc_ops": [c[0]], "options": {"store_states": True, "dt": 0.05}},
                 lambda d: _quiet(lambda: qutip.smesolve(d["H"], d["rho"], d["tlist"], sc_ops=d["sc_ops"], options=d["options"], ntraj=1, seeds=3, store_measurement=True).states), targets=(), detail={"fmt": fmt})
+        # options that are dictionaries themselves: the solver adds its own entries to a copy (the MPI executor is not installed
+        # here; the dictionary is handled before the map starts)
+        T.check(f"mcsolve-mpi-options:{fmt}", {"H": H0, "psi": psi, "tlist": np.linspace(0, 0.3, 3), "c_ops": list(c), "options": {"map": "mpi", "mpi_options": {"use_dill": False}, "progress_bar": ""}},
+                lambda d: _tolerate(lambda: qutip.mcsolve(d["H"], d["psi"], d["tlist"], d["c_ops"], ntraj=2, seeds=1, options=d["options"]), (ModuleNotFoundError, ImportError)), targets=(), detail={"fmt": fmt})
         # ---- mesolve / MESolver: H forms x c_op forms x state forms, Liouvillian forms
         c_forms = {"qobj": lambda: list(c), "none": lambda: [], "single": lambda: c[0], "qobjevo": lambda: [qutip.QobjEvo([c[0], f_sin], args={"w": 0.5}), c[1]],
                    "super": lambda: [qutip.lindblad_dissipator(c[0]), c[1]], "super_evo": lambda: [qutip.QobjEvo([qutip.lindblad_dissipator(c[0]), f_sin], args={"w": 0.5})]}
